@@ -64,6 +64,12 @@ def forced_specs(seed, tier):
                 sp = gen.make_spec(rng, D=rng.choice([1, 2]), geom="box", mode=mode, cons=None)
                 sp["options"] = {"n_search": 32, "max_fun_evals": 25 if mode == "det" else 55, key: val}
                 jobs.append(("basic_option", sp, {}))
+    # (h) sizes of the search population (n_search / n_search_iter): odd and tiny populations, one or three ES iterations
+    for mode in ("det", "decl"):
+        for ns, nsi in ((150, 2), (1026, 2), (33, 2), (4096, 3), (96, 3), (7, 1), (2, 2), (4, 2), (64, 1)):
+            sp = gen.make_spec(rng, D=rng.choice([1, 2]), geom="box", mode=mode, cons=None, target="quad")
+            sp["options"] = {"n_search": ns, "n_search_iter": nsi, "max_fun_evals": 30 if mode == "det" else 58}
+            jobs.append(("search_population", sp, {}))
     # (g) every boolean option of the two option files, toggled one at a time ("all option combinations" starts with the single switches)
     names = gen.boolean_options(skip=("specify_target_noise", "uncertainty_handling", "plot"))
     modes = ("det", "decl", "he")
